@@ -84,4 +84,26 @@ def writeTrace (dt cdt : DType F) (prev : Option (PVal F)) (v : PVal F) (ret : O
         | .error _ => none
         | .ok c => some ⟨got, c⟩
 
+/-! ## A write through a proxy module (`frappy/proxy.py:202-210`)
+
+The generated `write_<p>` of a proxy module hands the value to `setParameter` of the proxy node's own client and returns
+the value of the cache item it gets back; around it the usual write wrapper of a module (`modulebase.py:185-204`)
+validates the argument and the result with the proxy's copy of the parameter's datatype. -/
+
+structure ProxyTrace (F : Type) where
+  driverGot : PVal F       -- argument of the remote driver's `write_<p>`
+  cached : PVal F          -- cache entry of the proxy node's client
+  returned : PVal F        -- what the proxy module's `write_<p>` returns
+
+def proxyTrace (dt cdt : DType F) (prev : Option (PVal F)) (v : PVal F) (ret : Option (PVal F)) : Option (ProxyTrace F) :=
+  match validate dt v none with
+  | .error _ => none
+  | .ok v0 =>
+    match writeTrace dt cdt prev v0 ret with
+    | none => none
+    | some tr =>
+      match validate dt tr.cached none with
+      | .error _ => none
+      | .ok r => some ⟨tr.driverGot, tr.cached, r⟩
+
 end Frappy.Client.Cache
